@@ -1105,7 +1105,7 @@ def coq_crosscheck(pairs, tier):
         f.write("(* generated by harness/c19.py: the histories of this run, evaluated by the Coq model inside Coq *)\n"
                 "From Coq Require Import ZArith List.\nFrom GB Require Import Base.Field Extract.Sx Extract.Run.\n"
                 "Import ListNotations.\nOpen Scope Z_scope.\n"
-                "Definition K0 := QcK (qc_of 0 1) (fun x => x) (fun x => x) (fun x => x) (fun _ x => x).\n")
+                "Definition K0 := QcK false (qc_of 0 1) (fun x => x) (fun x => x) (fun x => x) (fun _ x => x).\n")
         for i, (cmd, raw) in enumerate(pairs):
             f.write("Definition c%d : sx := %s.\nDefinition r%d : sx := %s.\n" % (i, lit(cmd), i, lit(raw)))
         f.write("Definition answers := [%s].\n" % "; ".join("sx_eqb (run K0 c%d) r%d" % (i, i)
